@@ -591,7 +591,7 @@ def solve(assumptions, goal, timeout_ms=10000, extra_axioms=(), want_model=True,
             sv.add(a)
         sv.add(z3.Not(goal))
         return sv
-    stages = [(False, min(timeout_ms, 3000)), (True, min(timeout_ms, 6000)), (False, timeout_ms), (True, timeout_ms)]
+    stages = [(False, min(timeout_ms, 3000)), (True, min(timeout_ms, 6000)), (False, timeout_ms)]
     total = 0.0
     cand = None
     reason = None
@@ -614,7 +614,7 @@ def solve(assumptions, goal, timeout_ms=10000, extra_axioms=(), want_model=True,
             except z3.Z3Exception:
                 cand = None
     if use_cvc5:
-        v = _cvc5(last, timeout_ms)
+        v = _cvc5(last, min(timeout_ms, 10000))
         if v == 'unsat':
             return Verdict.PROVED, None, {'backend': 'cvc5', 's': total}
         if v == 'sat':
